@@ -1,4 +1,6 @@
 import BbRe.Lemmas.PoolStack3
+import BbRe.Lemmas.PoolStackCount
+import BbRe.Lemmas.PoolStackOracle
 import BbRe.Lemmas.FilePoolAllocSpec
 /-!
 # C15 (the whole stack) — quota pool over block-device pool over bitmap allocator
@@ -15,6 +17,9 @@ and history.
 when the bitmap model panics on a free, when the file layer holds a sector it was never handed, or
 when the base reports more bytes written than it was given.  `stack_consistent` shows it is never
 raised, so all theorems here are unconditional.
+Not proved: that the file model accepts every answer of the replay (never takes its `.oracle`
+branch in the stack); `Lemmas/PoolStackOracle.lean` has the acceptance step (`alloc_accepts_bitmap`)
+and lists what is missing (replay determinism, `nextMax` = the requested maximum); compared at run time.
 Helper lemmas: `BbRe/Lemmas/PoolStack.lean`, `PoolStack2.lean`, `PoolStackSub.lean`, `PoolStack3.lean`.
 -/
 namespace BbRe.Properties.C15Stack
@@ -133,6 +138,22 @@ theorem stack_conservation_sectors (c : Cfg) (hss : 1 ≤ c.ss) (mf mb : Nat) (o
       obtain ⟨i, f, hf, hsf, _⟩ := (hown s).1 (by simpa using hx)
       rw [hc.fpInv.closedEmpty i f hf (hclosed f (List.mem_of_getElem? hf))] at hsf
       cases hsf
+
+/-- **`stack_conservation`, count form**: in every reachable state the number of free sectors of the
+bitmap (`AllocSpec.freeCount` of its abstraction over sectors `1 … sectorCount`) plus the number of
+non-zero sector entries of all files equals `sectorCount` — also after failed operations. -/
+theorem stack_conservation_count (c : Cfg) (hss : 1 ≤ c.ss) (mf mb : Nat) (ops : List (Op × Inputs)) :
+    AllocSpec.freeCount (Bitmap.abs c.nsec (after c mf mb ops).bm) c.nsec +
+      ((after c mf mb ops).fp.files.map fun f => (f.sectors.filter (· ≠ 0)).length).sum = c.nsec := by
+  have hc := (run_notbroken c hss mf mb ops).1
+  have hcfg : (after c mf mb ops).fp.cfg = c := (run_fpInv ops _ (coupled_init c hss mf mb).fpInv).2
+  have he : Bitmap.abs c.nsec (after c mf mb ops).bm = fun s => (after c mf mb ops).fp.allocd.contains s := by
+    funext s; have := hc.agree s; rw [hcfg] at this; exact this
+  rw [he, ← allocd_length hc.fpInv]
+  refine freeCount_contains c.nsec _ hc.fpInv.allocNodup (fun s hs => ?_)
+  have := hc.fpInv.allocRange s hs
+  rw [hcfg] at this
+  exact this
 
 /-- **No sector is owned by two open files** (unconditional): in every state of the composed model
 the non-zero sector entries of different files are disjoint and no file lists a sector twice. -/
